@@ -26,7 +26,9 @@ LEVEL_TEXT = ('Theorems (Props/C08.v): read(write(f)) presents exactly the conte
               '(C08_lbdy_year_end_rewrite_refuted = finding lb-enddate-year-rollover). Tie H: constructor WL of Corr/C08.v (in-memory '
               'file -> writer (generated edge definitions, derived end dates) -> reader -> writer, every stage against the model). '
               'ONE3D FAMILY (one3d / humidity / vertical_diffusivity; Model/One3d.v, Proofs/One3dProofs.v; Memmap reader model with the translated record_items and time_steps expressions, reshapes / first-stamp-change / memmap size rules hand-modelled): C08_one3d_read_write, C08_one3d_rewrite_idempotent, C08_one3d_time_flags; tie H: constructor OD8 '
-              '(ncf2one3d output == o_enc, byte-identical re-write).')
+              '(ncf2one3d output == o_enc, byte-identical re-write). '
+              'TEMPERATURE and HEIGHT/PRESSURE (Model/TempHp.v, Proofs/TempHpProofs.v; layered record files over the One3d codec; both Memmap readers hand-modelled incl. the for-loop fall-through, the lazy reshapes and the marker check): C08_temperature_read_write, C08_temperature_rewrite_idempotent, C08_heightpres_read_write, '
+              'C08_heightpres_rewrite_idempotent; tie H: constructors TD8 / HD8 (writer output == spec encoding, byte-identical re-write).')
 LEVEL_NOTE = ('Trusted: Coq kernel+vm_compute, py2coq, harness. Met formats and landuse are held by correspondence and generic record '
               'framing theorems only. Known findings: writer-derived end date at a year end; single-step met files; 1x1 wind grids.')
 TECHNIQUE = 'Coq proof (codec/reader round trip, date arithmetic over translated expressions) + differential correspondence'
@@ -60,7 +62,7 @@ def gen(rng, n, tier):
 def impl(case):
     if MC.is_lb(case):
         return MC.run_lb_w(case)
-    if MC.is_o3(case):
+    if MC.is_layered(case):
         return MC.run_o3(case)
     if case['kind'].startswith('met-'):
         return MC.run_met(case)
@@ -121,8 +123,8 @@ def coq_term(case, obs):
             M.coq_lbdy(c), MC.lb_hours(c), C.cbool(w1.get('status') == 'ok'), C.zlist(w1.get('words') or []),
             C.cbool(ok), v, tf, etf, C.cbool(not MC.lb_py_check(case, obs)), C.cbool(w2.get('status') == 'ok'),
             C.zlist(w2.get('words') or []))
-    if MC.is_o3(case):
-        return MC.o3_term(case, obs, 'OD8')
+    if MC.is_layered(case):
+        return MC.layered_term(case, obs, '8')
     if case['kind'].startswith('met-'):
         wr = obs.get('wr') or {}
         return '(R8 %s %s %s %s)' % (C.zlist(M.encode(c)), C.zll(M.records(c)), C.cbool(wr.get('status') == 'ok'),
